@@ -79,7 +79,10 @@ def judge(ctx, prop, mode, trace, wls):
 
             def writer(rid=r["id"], only=only, line=r["line"]):
                 p = os.path.join(ctx.replay_dir(), "%s-%s-%d.json" % (rid, mode, line))
-                json.dump({"mode": mode, "only": only, "workload": json.loads(wl_by_id[rid])}, open(p, "w"))
+                # a variant run ("<id>-mixedcrc") is replayed from the base workload under the variant's id
+                w = json.loads(wl_by_id.get(rid) or wl_by_id[rid.rsplit("-", 1)[0]])
+                w["id"] = rid
+                json.dump({"mode": mode, "only": only, "workload": w}, open(p, "w"))
                 return p
             ctx.report(why, writer, "%s %s" % (r["id"], only))
     ctx.traces_ok += n_ev - bad
